@@ -155,6 +155,7 @@ class World:
         self.types = None         # MIR type definitions (set to constrain unknown values to well-formed ones)
         self._wf_done = set()
         self.refeqs = {}          # object key -> [(other key, Bool)]: possible identities between unknown objects
+        self.loose_views = False
 
     def refeq(self, ka, kb):
         """possible identity of two unknown objects.  samlang structs are immutable, so a struct is allocated after
@@ -187,6 +188,10 @@ class World:
     def field(self, sym, idx, ty, view=None):
         """field `idx` of an unknown object seen through static type `view` (views of unrelated types are
         different run-time shapes of the same reference and never hold at once)"""
+        if self.loose_views:
+            # comparing typed LIR with the untyped TypeScript printed from it: an object has one shape, so a slot is
+            # identified by its index (and whether an integer or a reference is read from it), not by a static type
+            view = "*int" if ty == "int" else "*ref"
         k = (sym.key, view, idx)
         if k not in self.fields:
             suffix = "" if view is None else "@" + view
@@ -214,6 +219,21 @@ class World:
         2k+1, an unboxed variant is an instance of its payload type; a struct value is an instance of the struct"""
         t = self.types.get(sym.ty) if isinstance(sym.ty, str) else None
         if t is None:
+            return
+        if "kind" not in t:
+            # LIR type table: an extensible type is an enum; its boxed variant k is the subtype <T>$_Sub<k> whose tag
+            # slot holds 2k + 1.  (Unboxed variants are not described at this level, so no closed-world disjunction.)
+            if not t.get("extensible"):
+                return
+            tag = self.field(sym, 0, "int", "#tag")
+            not31 = z3.Not(self.fact("isi31!%s" % sym.key))
+            for name, sub in self.types.items():
+                m_ = re.match(re.escape(sym.ty) + r"\$_Sub(\d+)$", name)
+                if m_ and sub.get("parent") == sym.ty:
+                    k = int(m_.group(1))
+                    is_sub = self.fact("isptr!%s!%s" % (sym.key, name))
+                    self.axioms.append(z3.Implies(is_sub, z3.And(not31, tag.t == BV(2 * k + 1))))
+                    self.axioms.append(z3.Implies(z3.And(not31, self.fact("isptr!%s!%s" % (sym.key, sym.ty)), tag.t == BV(2 * k + 1)), is_sub))
             return
         if t.get("kind") == "struct":
             self.axioms.append(self.fact("isptr!%s!%s" % (sym.key, sym.ty)))
@@ -371,6 +391,10 @@ class Exec:
                 if self.role == "ref":
                     st.pc.append(self.w.fact("isptr!%s!%s" % (v.key, t["id"])))
                     st.model = None
+                    if self.w.types is not None and (v.key, t["id"]) not in self.w._wf_done:
+                        # typed comparison: the value is a well-formed value of the type it is used at
+                        self.w._wf_done.add((v.key, t["id"]))
+                        self.w.well_formed(Sym(v.key, t["id"]))
                 return Sym(v.key, t["id"])
             return v
         return Poison(n)
@@ -390,6 +414,10 @@ class Exec:
             return a.t == b.t
         if isinstance(a, I31) and isinstance(b, I31):
             return a.t == b.t
+        for x, y in ((a, b), (b, a)):
+            if isinstance(x, Int) and isinstance(y, I31):
+                # a JavaScript number against an i31: the TypeScript back end writes the i31 k as the number 2k + 1
+                return x.t == y.t * BV(2) + BV(1)
         if a is b:
             return z3.BoolVal(True)
         for x, y in ((a, b), (b, a)):
@@ -770,6 +798,14 @@ class Exec:
         return "forked"
 
     def isptr(self, v, pt):
+        if pt == "#object":
+            # JavaScript's `typeof v === 'object'`: anything that is not a number (structs and strings are arrays)
+            if isinstance(v, (Obj, Str)):
+                return z3.BoolVal(True)
+            if isinstance(v, (I31, Int, Fn)):
+                return z3.BoolVal(False)
+            if isinstance(v, Sym):
+                return z3.Not(self.w.fact("isi31!%s" % v.key))
         if isinstance(v, Obj):
             return z3.BoolVal(self.p.is_subtype(v.ty, pt))
         if isinstance(v, (I31, Int)):
@@ -998,6 +1034,9 @@ def val_eq(a, b, ex):
         # strings are compared, references are not
         if not (isinstance(a, I31) and isinstance(b, I31)):
             return z3.BoolVal(True)
+    for x, y in ((a, b), (b, a)):
+        if isinstance(x, Int) and isinstance(y, I31) and getattr(ex, "js_numbers", False):
+            return x.t == y.t * BV(2) + BV(1)
     if isinstance(a, Int) and isinstance(b, Int):
         return a.t == b.t
     if isinstance(a, I31) and isinstance(b, I31):
@@ -1075,7 +1114,7 @@ def model_args(model, f, world):
 
 
 def compare_function(name, progA, progB, bounds, enter=False, timeout_s=20, ignore_type_names=False, loose_refs=False,
-                     name_b=None, typed=False, ref_div_traps=False):
+                     name_b=None, typed=False, ref_div_traps=False, js=False, wf_types=None):
     """-> dict(status=equal|different|skipped, ...).  progA is the reference.  `name_b`: compare with a differently
     named function of progB (source-level laws); `typed`: unknown arguments are well-formed values of their types."""
     name_b = name_b or name
@@ -1090,13 +1129,15 @@ def compare_function(name, progA, progB, bounds, enter=False, timeout_s=20, igno
     world = World()
     world.is_subtype = progB.is_subtype
     if typed:
-        world.types = progB.types
+        world.types = wf_types if wf_types is not None else progB.types
+    world.loose_views = js
     solver = z3.Solver()
     exA = Exec(progA, world, "ref", enter, bounds, solver)
     exB = Exec(progB, world, "new", enter, bounds, solver)
     exA.ignore_type_names = exB.ignore_type_names = ignore_type_names
     exA.loose_refs = exB.loose_refs = loose_refs
     exA.ref_div_traps = ref_div_traps
+    exA.js_numbers = exB.js_numbers = js
     args = mk_args(fa, world)
     t0 = time.time()
     tb = (bounds or {}).get("seconds")
